@@ -60,4 +60,6 @@ M = [
  # ---- C06 end to end: jet1090's own loop around decode_position
  ("c06-main-tisb-shared", ["C06"], J+"main.rs", "                            &cf.aa,\n                            &mut aircraft,", "                            &ICAO(cf.aa.0 >> 8),\n                            &mut aircraft,"),
  ("c06-main-first-reference", ["C06"], J+"main.rs", "                        let mut reference = references[&serial];\n\n                        decode_position(\n                            &mut adsb.message,", "                        let mut reference = references.values().next().copied().unwrap_or(references[&serial]);\n\n                        decode_position(\n                            &mut adsb.message,"),
+ # ---- C16 end to end: the serial the application reports
+ ("c16-main-serial-name", ["C16"], J+"sensor.rs", "                serial: value.serial(),\n                name: value.name.clone(),", "                serial: value.serial() ^ value.reference.is_some() as u64,\n                name: value.name.clone(),"),
 ]
